@@ -420,8 +420,25 @@ def run_impl(lines):
         except (KeyboardInterrupt, SystemExit):
             raise
         except BaseException as e:        # noqa
-            out.append(f"impl-error:{type(e).__name__}")
+            out.append(f"impl-error:{type(e).__name__}" + _raised_in_library(e))
     return out, im
+
+
+def _raised_in_library(e):
+    """'@iOpt/<file>:<line>:<message>' when the innermost frame of the traceback is code of the library under test (the implementation
+    itself rejected / choked on the input), '' when it is the harness's own code (an observer that does not know the state reached,
+    an objective made to fail on purpose)"""
+    tb, last = e.__traceback__, None
+    while tb is not None:
+        last = tb
+        tb = tb.tb_next
+    if last is None:
+        return ""
+    fn = last.tb_frame.f_code.co_filename.replace("\\", "/")
+    root = os.path.join(os.path.abspath(REPO), "iOpt").replace("\\", "/") + "/"
+    if fn.startswith(root):
+        return "@iOpt/%s:%d:%s" % (fn[len(root):], last.tb_lineno, str(e)[:120].replace("\n", " "))
+    return ""
 
 
 if __name__ == "__main__":
